@@ -37,7 +37,11 @@ let parse_msg (s : string) : msg =
   match String.split_on_char ',' s with
   | ["K"] -> MKeepalive
   | ["O"; v; a; h; i; caps] ->
-    let cs = if caps = "-" then [] else List.map parse_cap (String.split_on_char '+' caps) in
+    let expand t =
+      if t.[0] = 'q' then
+        List.map (fun tu -> parse_cap ("p" ^ tu)) (String.split_on_char '_' (String.sub t 1 (String.length t - 1)))
+      else [parse_cap t] in
+    let cs = if caps = "-" then [] else List.concat_map expand (String.split_on_char '+' caps) in
     MOpen { o_ver = nn (ios v); o_asn = nn (ios a); o_hold = nn (ios h); o_id = nn (ios i); o_caps = cs }
   | ["U"; a; w] -> MUpdate (parse_ids a, parse_ids w)
   | ["P"; r; k; v] -> MPoison (nn (ios r), k = "a", nn (ios v))
@@ -57,7 +61,7 @@ let parse_event (t : string) : int * ev =
     else if r = "upx" then ETcpUp true
     else if r = "ka" then EKeepaliveTimer
     else if r = "cr" then EConnectRetry
-    else if r = "brk" then EBreak
+    else if r = "brk" || r = "pc" then EBreak
     else if String.length r = 3 && String.sub r 0 2 = "ri" then
       EReplaceImport (match r.[2] with 'A' -> ImpAccept | 'R' -> ImpRewrite | _ -> ImpReject)
     else if String.length r = 3 && String.sub r 0 2 = "re" then EReplaceExport
